@@ -341,8 +341,10 @@ def generate(outpath, repo="/repo"):
             if newton:
                 gname = name_of[newton[-1][1]]
                 epw0 = epw_names[g.nodes[lift(exits[0].value[1]._sinEPW)][1]]
-                compose.append("Lemma compose_nn%d_x%d_exit_test (%s : R) :\n  %s %s = Rabs ((%s %s - %s %s) + %s %s (%s %s)).\nProof. reflexivity. Qed.\n"
-                               % (li, j, B, gname, B, epw0, B, epw, B, fin_names["_esinE"], B, epw, B))
+                # by conversion when the source writes f = capu - epw + esinE; otherwise up to ring (operand order)
+                compose.append("Lemma compose_nn%d_x%d_exit_test (%s : R) :\n  %s %s = Rabs ((%s %s - %s %s) + %s %s (%s %s)).\n"
+                               "Proof. first [reflexivity | unfold %s; rewrite <- compose_nn%d_x%d_esinE; f_equal; ring]. Qed.\n"
+                               % (li, j, B, gname, B, epw0, B, epw, B, fin_names["_esinE"], B, epw, B, gname, li, j))
             for kname in KEP_OUT:
                 compose.append("Lemma compose_nn%d_x%d_out_%s (%s : R) :\n  gen_nn%d_x%d_%s %s = gen_nn%d_fin_out_%s %s (%s %s).\nProof. reflexivity. Qed.\n"
                                % (li, j, kname, B, li, j, kname, B, li, kname, B, epw, B))
